@@ -103,9 +103,9 @@ def encode(node, d, names, out, pick=None):
     elif k in ("int", "long"):
         out.append(("long", d))
     elif k == "float":
-        out.append(("float", d))
+        out.append(("float", float(d)))  # an int datum under float/double is encoded as that number's float
     elif k == "double":
-        out.append(("double", d))
+        out.append(("double", float(d)))
     elif k == "bytes":
         out.append(("bytes", bytes(d)))
     elif k == "string":
